@@ -19,11 +19,11 @@ CHUNK = 200
 BOUNDS = {
     'quick': {'max_nodes_exhaustive': 4, 'all_order_assignments_up_to_edges': 6, 'orders': [0, 1, 2, 3, 4],
               'relabelings_per_graph': 'identity, reversed, 1 seeded permutation, gapped keys', 'random_graphs': 150,
-              'random_graph_nodes': '6..12'},
+              'random_graph_nodes': '6..12', 'dense_graphs': 'K6..K8, fans and wheels with 10, 12, 14 nodes (>= 10 ring bonds open at once), 2 variants each'},
     'thorough': {'max_nodes_exhaustive': 6, 'all_order_assignments_up_to_edges': 6, 'orders': [0, 1, 2, 3, 4],
                  'sampled_assignments_above': 60,
                  'relabelings_per_graph': 'identity, reversed, 2 seeded permutations, gapped keys', 'random_graphs': 3000,
-                 'random_graph_nodes': '6..12'},
+                 'random_graph_nodes': '6..12', 'dense_graphs': 'K6..K9, fans and wheels with 10..16 nodes, 5 variants each'},
 }
 EXHAUSTIVE = {'quick': False, 'thorough': False}
 RULE = ('every connected unlabelled graph up to the stated size (networkx atlas) x bond-order assignments from 0..4 '
@@ -35,6 +35,8 @@ ASSUMPTIONS = ['networkx.dfs_successors and pysmiles._write_edge_symbol / _get_r
 
 
 def cases(tier, seed):
+    # graphs that need two-digit ring markers first (few and cheap)
+    yield from g5_graphs.dense_graph_cases(seed, quick=(tier == 'quick'))
     if tier == 'quick':
         yield from g5_graphs.graph_cases(4, 6, seed, n_samples=0, n_perm=1)
         yield from g5_graphs.graph_cases(5, 4, seed, n_samples=6, n_perm=0, repeated_names=False, min_nodes=5)
